@@ -7,7 +7,7 @@ use rsjsonnet_lang::arena::Arena;
 
 use crate::corpus::Corpus;
 use crate::json::Json;
-use crate::pgen::{Gen, GenCfg, Node, Ty, CYCLIC_SNIPPETS};
+use crate::pgen::{Gen, GenCfg, Node, Ty, COMPARE_SNIPPETS, CYCLIC_SNIPPETS};
 use crate::prog::{sched_mode_name, AuditMode, CbGc, Ctx, Out, Sched, SchedMode, SchedStats, World};
 use crate::reqs::{ops_from_json, ops_to_json, Exec, Op, Req};
 use crate::rng::Rng;
@@ -155,6 +155,9 @@ pub fn gen_scenario(seed: u64) -> Scenario {
         let name = format!("main{i}.jsonnet");
         if cfg.cycles && g.chance(1, 6) {
             let s = *g.pick(CYCLIC_SNIPPETS);
+            files.insert(name.clone(), s.as_bytes().to_vec());
+        } else if g.chance(1, 10) {
+            let s = *g.pick(COMPARE_SNIPPETS);
             files.insert(name.clone(), s.as_bytes().to_vec());
         } else if cfg.functions && g.chance(1, 5) {
             // a top-level function (exercises eval_call)
@@ -592,6 +595,11 @@ struct OneResult {
     kinds_seen: BTreeSet<u64>,
     kinds_collected: BTreeSet<u64>,
     log_hash: u64,
+    /// digests of the program-visible outcomes (requests, trace messages, callbacks) of the reference and the scheduled run
+    ref_digest: u64,
+    run_digest: u64,
+    collections_total: u64,
+    scenario_json: Option<Json>,
     audits: u64,
 }
 
@@ -659,11 +667,15 @@ fn collect_probes(p: &mut BTreeMap<String, u64>, run: &RunResult) {
 }
 
 fn one_run(root: u64, i: u64, corpus: &Corpus, enumerate: bool, want_sample: bool) -> OneResult {
+    one_run_opt(root, i, corpus, enumerate, want_sample, false)
+}
+
+fn one_run_opt(root: u64, i: u64, corpus: &Corpus, enumerate: bool, want_sample: bool, keep_scenario: bool) -> OneResult {
     let seed = crate::rng::run_seed(root, "sim-gc", i);
     let mut srng = Rng::stream(seed, "sched");
     let use_corpus = !corpus.entries.is_empty() && i % 4 == 3;
     let sc = if use_corpus { corpus_scenario(corpus, (i / 4) as usize) } else { gen_scenario(seed) };
-    let mut res = OneResult { runs: 1, steps: 0, discarded: false, single_point_runs: 0, probes: BTreeMap::new(), family: String::new(), failure: None, sample: None, nontrivial_sigs: Vec::new(), kinds_seen: BTreeSet::new(), kinds_collected: BTreeSet::new(), log_hash: 0, audits: 0 };
+    let mut res = OneResult { runs: 1, steps: 0, discarded: false, single_point_runs: 0, probes: BTreeMap::new(), family: String::new(), failure: None, sample: None, nontrivial_sigs: Vec::new(), kinds_seen: BTreeSet::new(), kinds_collected: BTreeSet::new(), log_hash: 0, audits: 0, ref_digest: 0, run_digest: 0, collections_total: 0, scenario_json: None };
     if use_corpus {
         bump(&mut res.probes, "corpus_scenarios");
     }
@@ -714,6 +726,13 @@ fn one_run(root: u64, i: u64, corpus: &Corpus, enumerate: bool, want_sample: boo
         res.nontrivial_sigs.push(scen_hash ^ crate::rng::fnv1a64(&format!("{:?}", run.collected)));
     }
     res.log_hash = crate::rng::fnv1a64(&format!("{}|{}|{:?}", reference.log, run.log, run.collected));
+    let digest = |r: &RunResult| crate::rng::fnv1a64(&format!("{:?}|{:?}|{:?}|{:?}", r.outs, r.traces, r.cb_log, r.end_counts));
+    res.ref_digest = digest(&reference);
+    res.run_digest = digest(&run);
+    res.collections_total = run.sched_stats.collections + run.cb_gc_done.len() as u64 + run.heuristic_gcs + run.cb_gc_kinds.get("native-gcNow").copied().unwrap_or(0) + sc.ops.iter().filter(|o| matches!(o.req, Req::Gc)).count() as u64;
+    if want_sample || keep_scenario {
+        res.scenario_json = Some(scenario_to_json(&sc, &explicit_spec(&spec, &run), Some(&run.touched)));
+    }
     if want_sample {
         res.sample = Some(Json::obj(vec![
             ("run", Json::Num(i as f64)),
@@ -781,7 +800,7 @@ pub fn batch(root: u64, scenarios: u64, enumerate_every: u64, workers: usize, co
     let mut classes: BTreeSet<String> = BTreeSet::new();
     let keep_hashes = std::env::var("VERIF_HASH_DUMP").is_ok();
     let step = (scenarios / 64).max(1);
-    let mut sampled: Vec<(u64, u64)> = Vec::new();
+    let mut sampled: Vec<(u64, u64, u64, u64)> = Vec::new();
     const CHUNK: u64 = 20_000;
     // VERIF_START=<i> (debugging aid): begin at scenario i
     let mut base = std::env::var("VERIF_START").ok().and_then(|s| s.parse().ok()).unwrap_or(0u64);
@@ -797,7 +816,7 @@ pub fn batch(root: u64, scenarios: u64, enumerate_every: u64, workers: usize, co
                 b.hashes.push(r.log_hash);
             }
             if i % step == 0 && r.failure.is_none() && !r.discarded && sampled.len() < 64 {
-                sampled.push((i, r.log_hash));
+                sampled.push((i, r.log_hash, r.ref_digest, r.run_digest));
             }
             b.runs += r.runs + r.single_point_runs;
             b.steps += r.steps;
@@ -832,11 +851,37 @@ pub fn batch(root: u64, scenarios: u64, enumerate_every: u64, workers: usize, co
     b.state_kinds_seen = seen.len();
     b.state_kinds_collected_after = coll.len();
     // determinism sample: re-execute up to 64 runs (single-threaded) and compare event-log hashes
-    for (i, h) in sampled {
-        let again = one_run(root, i, corpus, false, false);
+    for (i, h, ref_d, run_d) in sampled {
+        let again = one_run_opt(root, i, corpus, false, false, true);
         b.determinism_reexecuted += 1;
-        if again.log_hash != h {
-            b.determinism_mismatches += 1;
+        if let Some(v) = again.failure {
+            // the second execution of the same scenario violates an invariant: that is a violation of the property
+            // (e.g. outcomes that depend on addresses), not a harness problem
+            b.violations.push(v);
+        } else if again.log_hash != h {
+            // two executions of the same scenario under the same schedule differ. If what differs is the
+            // program-visible outcome and collections ran, the outcome depends on something a collection changes
+            // (addresses, liveness): a violation of invisibility. Otherwise it is the harness (or uncontrolled
+            // nondeterminism unrelated to collection): exit 2.
+            let outcome_differs = again.ref_digest != ref_d || again.run_digest != run_d;
+            if outcome_differs && again.collections_total > 0 {
+                b.violations.push(Violation {
+                    property: "C03".into(),
+                    engine: "sim-gc".into(),
+                    invariant: "G1".into(),
+                    class: "outcome-differs-between-two-executions-of-the-same-schedule".into(),
+                    detail: format!("scenario {i}: two executions of the same scenario under the same collection schedule give different request outcomes ({} of them with the scheduled collections, {} without) although nothing but collection timing and memory addresses can differ", if again.run_digest != run_d { "the run" } else { "not the run" }, if again.ref_digest != ref_d { "also the run" } else { "not the run" }),
+                    run_index: i,
+                    scenario: again.scenario_json.clone().unwrap_or(Json::Null),
+                    observed: Json::str(format!("outcome digests {:016x}/{:016x} vs {:016x}/{:016x}", ref_d, run_d, again.ref_digest, again.run_digest)),
+                    expected: Json::str("identical outcomes"),
+                    event_log_sha256: String::new(),
+                    minimised: false,
+                });
+            } else {
+                eprintln!("determinism mismatch at scenario {i}: outcome_differs={outcome_differs} collections={} ref {ref_d:x}/{:x} run {run_d:x}/{:x}", again.collections_total, again.ref_digest, again.run_digest);
+                b.determinism_mismatches += 1;
+            }
         }
     }
     b
@@ -844,6 +889,18 @@ pub fn batch(root: u64, scenarios: u64, enumerate_every: u64, workers: usize, co
 
 pub fn replay(scenario: &Json) -> Result<Option<Violation>, String> {
     let (sc, spec) = scenario_from_json(scenario).ok_or("bad sim-gc scenario")?;
-    let (_, run, f) = check(&sc, &spec, 0);
-    Ok(f.map(|f| to_violation(&sc, &spec, &f, 0, &run.touched, &run.log, true)))
+    // executed several times: outcomes that depend on memory addresses need not differ in every execution
+    let mut digests: Vec<u64> = Vec::new();
+    for _ in 0..6 {
+        let (_, run, f) = check(&sc, &spec, 0);
+        if let Some(f) = f {
+            return Ok(Some(to_violation(&sc, &spec, &f, 0, &run.touched, &run.log, true)));
+        }
+        digests.push(crate::rng::fnv1a64(&format!("{:?}|{:?}|{:?}|{:?}", run.outs, run.traces, run.cb_log, run.end_counts)));
+    }
+    if digests.iter().any(|d| *d != digests[0]) {
+        let f = Failure { invariant: "G1".into(), class: "outcome-differs-between-two-executions-of-the-same-schedule".into(), detail: "six executions of this scenario under its schedule do not all give the same outcomes".into(), observed: Json::str(format!("{digests:x?}")), expected: Json::str("identical outcomes") };
+        return Ok(Some(to_violation(&sc, &spec, &f, 0, &BTreeSet::new(), "", true)));
+    }
+    Ok(None)
 }
